@@ -154,6 +154,55 @@ static std::string scheme_check(const SchemeRow & row, int nphase, bool deep)
   return js.str();
 }
 
+// every published name generated one after the other in ONE process, in several orders (per-process state frozen by the first
+// background call, prefix pairs such as Te133/Te133m met in both orders): each event still equals the name's own scheme
+static std::string sequence_check(int order)
+{
+  size_t n = sizeof SCHEMES / sizeof SCHEMES[0];
+  std::vector<size_t> idx(n);
+  for (size_t k = 0; k < n; k++) idx[k] = order == 0 ? k : (order == 1 ? n - 1 - k : (k * 29 + 7) % n);
+  long execs = 0;
+  std::vector<std::pair<std::string, std::string>> viol;
+  std::string prev = "(first of the process)";
+  for (size_t k : idx) {
+    const SchemeRow & row = SCHEMES[k];
+    Config c;
+    c.cat = "bkg";
+    c.name = row.name;
+    PortSide P;
+    P.via_gen = true;
+    if (P.init(c, 1) != 0) {
+      viol.push_back({std::string("sequence:") + row.name + ":init", std::string("'") + row.name + "' does not initialise after '" + prev + "' in the same process: " + P.init_what});
+      prev = row.name;
+      continue;
+    }
+    for (int ph = 0; ph < 2; ph++) {
+      PHASE = 31 + 1009 * ph;
+      std::vector<Forced> runs(1);
+      for (size_t i = 0; i < 3; i++)
+        for (double v : {1e-12, 0.5, 1 - 1e-12}) {
+          Forced f;
+          f[i] = v;
+          runs.push_back(f);
+        }
+      for (auto & f : runs) {
+        Ev a = P.shot(f);
+        Ev b = direct(row, f, PHASE);
+        execs++;
+        if (!same(a, b) && viol.size() < 8)
+          viol.push_back({std::string("sequence:") + row.name + ":scheme", std::string("name '") + row.name + "' generated after '" + prev + "' (order " + std::to_string(order) + ") yields " + describe(a)
+                                                                              + "; its own scheme function yields " + describe(b) + " on the same deviates (forced=" + vx::forced_to_json(f) + ")"});
+      }
+    }
+    prev = row.name;
+  }
+  std::ostringstream js;
+  js << "{\"name\":" << vx::jstr("sequence-order" + std::to_string(order)) << ",\"executions\":" << execs << ",\"distinct\":0,\"violations\":[";
+  for (size_t k = 0; k < viol.size(); k++) js << (k ? "," : "") << "{\"key\":" << vx::jstr(viol[k].first) << ",\"text\":" << vx::jstr(viol[k].second) << "}";
+  js << "]}";
+  return js.str();
+}
+
 int main(int argc, char ** argv)
 {
   std::string mode = argc > 1 ? argv[1] : "";
@@ -210,6 +259,11 @@ int main(int argc, char ** argv)
                  },
                  [&](size_t, const std::string & r) { printf("%s\n", r.c_str()); fflush(stdout); },
                  [&](size_t i, const std::string & how) { printf("{\"name\":%s,\"crashed\":%s}\n", vx::jstr(names[i]).c_str(), vx::jstr(how).c_str()); fflush(stdout); });
+    return 0;
+  }
+  if (mode == "sequence") {
+    vx::run_pool(3, 3, 1200, [&](size_t i) { return sequence_check((int)i); }, [&](size_t, const std::string & r) { printf("%s\n", r.c_str()); fflush(stdout); },
+                 [&](size_t i, const std::string & how) { printf("{\"name\":%s,\"crashed\":%s}\n", vx::jstr("sequence-order" + std::to_string(i)).c_str(), vx::jstr(how).c_str()); });
     return 0;
   }
   if (mode == "scheme") {
